@@ -125,4 +125,48 @@ theorem C14_all_histories (useLb : Bool) (M : α) (cands : List (Nat × α × α
 example : (knnScan 2 true (Cost.fin 10) [(0, .fin 4, .fin 1), (1, .fin 2, .fin 2), (2, .fin 12, .fin 11),
     (3, .fin 2, .fin 0), (4, .fin 3, .fin 3)]).best = [(.fin 2, 3), (.fin 2, 1)] := by decide
 
+/-! ### `k = None`: the full ranking -/
+
+theorem insertSorted_perm (x : α × Nat) (l : List (α × Nat)) : (insertSorted x l).Perm (x :: l) := by
+  induction l with
+  | nil => simp [insertSorted]
+  | cons y ys ih =>
+    unfold insertSorted
+    split
+    · exact List.Perm.refl _
+    · exact (List.Perm.cons y ih).trans (List.Perm.swap x y ys)
+
+/-- **`kbest_matches(None)`**: every candidate is reported exactly once, in ascending order of the reported
+value; the reported value of a qualifying candidate (finite, within the user bound) is its true distance,
+of any other candidate infinity — whether or not the lower-bound skip is used. -/
+theorem C14_all (useLb : Bool) (M : α) (cands : List (Nat × α × α)) (hlb : ∀ c ∈ cands, c.2.2 ≤ c.2.1) :
+    (knnAll useLb M cands).Pairwise (fun a b => a.1 ≤ b.1) ∧
+    (knnAll useLb M cands).Perm (cands.map fun c => (allVal useLb M c, c.1)) ∧
+    ∀ c ∈ cands, allVal useLb M c = if c.2.1 ≤ M then c.2.1 else ⊤ := by
+  refine ⟨?_, ?_, ?_⟩
+  · unfold knnAll
+    induction cands.map (fun c => (allVal useLb M c, c.1)) with
+    | nil => simp
+    | cons x xs ih => simp only [List.foldr_cons]; exact insertSorted_sorted x _ ih
+  · unfold knnAll
+    induction cands.map (fun c => (allVal useLb M c, c.1)) with
+    | nil => simp
+    | cons x xs ih =>
+      simp only [List.foldr_cons]
+      exact (insertSorted_perm x _).trans (List.Perm.cons x ih)
+  · intro c hc
+    unfold allVal
+    split
+    · rename_i hskip
+      -- skipped by the lower bound: lb > M, hence dist > M
+      have : ¬ c.2.1 ≤ M := fun h => hskip.2 (le_trans (hlb c hc) h)
+      simp [this]
+    · rfl
+
+/-- after a `None` query nothing is re-used: the next numeric query is answered like on a fresh object -/
+theorem C14_after_all (useLb : Bool) (M : α) (cands : List (Nat × α × α)) (o : SSObj α) (k : Nat) :
+    (ssQuery useLb M cands (ssQueryAll useLb M cands o).1 k).2 = (knnScan k useLb M cands).best := by
+  simp [ssQueryAll, ssQuery]
+
+
 end Dtai
